@@ -51,4 +51,23 @@ def holds (cfg : Worker.Cfg) (skip : Bool) (base : Nat) (content : Bytes) (calls
   else if cfg.cutOff then allCut cfg.maxSize calls want
   else calls == want.filter (fits cfg.maxSize)
 
+/-- what the pipeline's output must receive for one complete line (offset, line incl. newline)
+    when worker and pipeline share `max`/`cut` and the decoder is `raw` (message = bytes without the
+    final newline): an empty line is not an event; a line of at most `max` bytes — the line of
+    exactly `max` bytes included — arrives unchanged; a longer one is dropped (skip) or arrives as
+    its first `max` bytes (cut). -/
+def wantEvent (cfg : Worker.Cfg) (x : Nat × Bytes) : Option (Nat × Bytes) :=
+  if x.2 = [] ∨ x.2 = [NL] then none
+  else if cfg.maxSize ≠ 0 ∧ x.2.length > cfg.maxSize then
+    (if cfg.cutOff then some (x.1, x.2.take cfg.maxSize) else none)
+  else some (x.1, x.2.dropLast)
+
+/-- the events of a file life behind the real pipeline -/
+def pipeSpec (cfg : Worker.Cfg) (skip : Bool) (base : Nat) (content : Bytes) : List (Nat × Bytes) :=
+  (dropFirst skip (specLines content base [])).filterMap (wantEvent cfg)
+
+/-- the property oracle of the worker-plus-pipeline cases: exactly these events, in order -/
+def pipeHolds (cfg : Worker.Cfg) (skip : Bool) (base : Nat) (content : Bytes) (events : List (Nat × Bytes)) : Bool :=
+  events == pipeSpec cfg skip base content
+
 end FileD.SpecC06
